@@ -310,6 +310,17 @@ def programs(rng, quick):
             out.append((f'growth/{label}/{n}', growth_program(rng, n, f, 211 if n <= 3000 else 1999)))
     for p in from_dict_programs(rng):
         out.append(('fromdict', p))
+    if not quick:
+        # the `used > 50000 ? used*2 : used*4` branch of both resize triggers: 120000 keys (262144 slots), a difference_update
+        # that leaves 54000 keys behind 66000 dummies (purge -> used*2 -> 131072 slots), then adds up to the next growth
+        # boundary (78643 -> used*2 -> 262144 slots; used*4 would give 524288)
+        n = 120000
+        prog = [('new', 0), ('updl', 0, *range(1, n + 1)), ('state', 0), ('dupl', 0, *range(1, 66001)), ('state', 0), ('pop', 0),
+                ('updl', 0, *range(n + 1, n + 24700)), ('state', 0)]
+        for k in range(n + 24700, n + 24760):
+            prog += [('add', 0, k), ('state', 0)]
+        prog += [('pop', 0), ('iter', 0), ('copy', 1, 0), ('state', 1), ('pop', 1)]
+        out.append(('growth/over50000', prog))
     for i in range(10 if quick else 40):
         out.append(('dict', dict_program(rng, rng.choice([30, 200]))))
     return out
